@@ -457,7 +457,7 @@ def run_scripts(scripts, wd, tag):
     n = len(scripts)
     if n == 0:
         return {}
-    nproc = min(12, max(1, n // 200))
+    nproc = min(4, max(1, n // 200))
     chunks = [scripts[i::nproc] for i in range(nproc)]
     procs = []
     for ci, ch in enumerate(chunks):
